@@ -243,11 +243,15 @@ func rc4All(c *vf.Ctx) {
 			return
 		}
 		scratch := sync.Pool{New: func() any { b := make([]byte, rcL); return &b }}
+		var failed int32 // set on the first wrong output: the search for this key stops at the next level
 		s := &bfs.Search{
 			NOps:    nops,
 			InitKey: "0|" + rc4Dump(newCipher(), raw),
 			Workers: 1,
-			Stop:    c.DeadlineExceeded,
+			// a correct cipher has exactly L+2 states per key (L+1 positions + the reset state); the cap only
+			// bounds memory when a defect makes the internal state depend on the chunking
+			MaxStates: 4 * (rcL + 2),
+			Stop:      func() bool { return atomic.LoadInt32(&failed) != 0 || c.DeadlineExceeded() },
 			Step: func(path []int, op int) (string, bool) {
 				pos := pathPos(path)
 				k, sep, rst, ok := opChunk(pos, op)
@@ -307,6 +311,9 @@ func rc4All(c *vf.Ctx) {
 				if !lc.Check(kNoPanic, !pan, func() string { return describe(path, op) + ": panic " + msg + " at " + where }) {
 					return "", false
 				}
+				if !bytes.Equal(got, want[pos:pos+k]) {
+					atomic.StoreInt32(&failed, 1)
+				}
 				lc.Check(kEq, bytes.Equal(got, want[pos:pos+k]), func() string {
 					i := 0
 					for i < k && got[i] == want[pos+i] {
@@ -324,7 +331,7 @@ func rc4All(c *vf.Ctx) {
 		atomic.AddInt64(&totStates, int64(res.States))
 		atomic.AddInt64(&totTrans, int64(res.Transitions))
 		if res.CapHit {
-			c.Cap("rc4 BFS stopped early (deadline) for key " + K.name)
+			c.Cap("rc4 BFS stopped early (deadline or state cap: internal state depends on the chunking)")
 		}
 		for i := 0; i < res.States; i++ {
 			c.Distinct([]byte("rc4"), []byte(K.name), []byte{byte(i), byte(i >> 8)})
